@@ -21,8 +21,10 @@ for mp in sorted(glob.glob(os.path.join(ROOT, "seeded", "C*", "meta.json"))):
 n = len(rows)
 caught = sum(1 for r in rows if "caught: " in r.split("|")[3])
 text = [
-    f"{n} changes produced by independent sub-agents (each was given only the property text and its own scratch",
-    "worktree; none saw /verif), each confirmed by `tools/confirm_mutant.sh` in a scratch worktree: it applies,",
+    f"{n} changes produced by independent sub-agents in three rounds (each was given only the property text and its",
+    "own scratch worktree; in the third round (suffixes E/F, and D/E for C14, C15, C19) also a one-line summary of",
+    "the changes already seeded for that property, so as not to repeat them; none saw /verif or was told what the",
+    "checks detect), each confirmed by `tools/confirm_mutant.sh` in a scratch worktree: it applies,",
     "the existing 103-test suite still passes, its demonstration fails with it and passes without it. Every",
     "change needs something specific to manifest (see `seeded/<id>/meta.json: needs_to_manifest`).",
     f"`tools/matrix.sh` applies each to /repo, runs the check of its property and undoes it: {caught} of {n} are caught by the quick check.",
